@@ -141,7 +141,7 @@ Lemma ss_solve_step_facts (e : Envr) times speeds (cl : ConLimr) st c st' c' :
   exists st1 c1,
     strap_update_res (e_grades e) (e_curves e) (e_rp e) st c DFwd = Ok (st1, c1) /\ c' = c1 /\
     (1 <= i)%nat /\ (i < length times)%nat /\ (i < length speeds)%nat /\
-    0 <= nthR speeds i /\
+    0 <= nthR speeds i /\ 0 <= nthR speeds (i - 1) /\
     let dt := nthR times i - nthR times (i - 1) in
     let mean := (nthR speeds i + nthR speeds (i - 1)) / 2 in
     let ppos := pwr_pos_max_of cl (w_pwr_whl_out (ts_w st)) (k_dt (ts_k st)) in
@@ -169,10 +169,11 @@ Proof.
   unfold ss_solve_step. intros H.
   destruct (nth_error speeds (k_i (ts_k st))) as [v_i|] eqn:Evi; [|discriminate].
   ens H. numR. apply Rleb_true in E.
-  destruct (nth_error times (k_i (ts_k st))) as [t_i|] eqn:Eti; [|discriminate].
   destruct (k_i (ts_k st)) as [|im1] eqn:Ei; [discriminate|].
-  destruct (nth_error times im1) as [t_p|] eqn:Etp; [|discriminate].
   destruct (nth_error speeds im1) as [v_p|] eqn:Evp; [|discriminate].
+  apply bind_ok in H. destruct H as ([] & Evp0 & H). apply ensure_ok in Evp0. numR. apply Rleb_true in Evp0.
+  destruct (nth_error times (S im1)) as [t_i|] eqn:Eti; [|discriminate].
+  destruct (nth_error times im1) as [t_p|] eqn:Etp; [|discriminate].
   binv H sc1 Hu. destruct sc1 as [st1 c1]. cbv beta iota in H.
   destruct (update_res_frame _ _ _ _ _ _ _ _ Hu) as (Fp & Fw & Ft & Fi & Fo & Fb & Fd & Fl & Foil & Fs & Fsl & Fst & Fdt).
   ens H. numR. apply Rleb_true in E0.
@@ -206,7 +207,7 @@ Theorem ss_step_kin (e : Envr) times speeds cl st c st' c' :
   kin_law (e_lps e) st st' (k_speed (ts_k st')) /\ ss_sync times speeds (bump_i st').
 Proof.
   intros (Hi & Ht & Hv) H. apply ss_solve_step_facts in H.
-  destruct H as (st1 & c1 & _ & _ & Hi1 & Hit & Hiv & Hv0 & Hpp & Ft & Fs & Fdt & Fi & Fo & Fd & Fb & Fp & _ & Fl & _).
+  destruct H as (st1 & c1 & _ & _ & Hi1 & Hit & Hiv & Hv0 & Hvp0 & Hpp & Ft & Fs & Fdt & Fi & Fo & Fd & Fb & Fp & _ & Fl & _).
   split.
   - unfold kin_law. cbv zeta. rewrite Ft, Fdt, Fo, Fs, Fd, Ht, Hv. repeat split; auto; try lra.
     + f_equal. f_equal. lra.
@@ -350,7 +351,7 @@ Proof.
   - intros s i s' Hi Hst. unfold ss_run_step, ss_step in Hst.
     binv Hst r Hr0. destruct r as [st' c']. cbv beta iota in Hst. inversion Hst; subst s'. cbn [fst].
     pose proof Hr0 as Hf. apply ss_solve_step_facts in Hf.
-    destruct Hf as (_ & _ & _ & _ & _ & _ & _ & _ & _ & Ft & Fs & _).
+    destruct Hf as (_ & _ & _ & _ & _ & _ & _ & _ & _ & _ & Ft & Fs & _).
     apply ss_step_kin in Hr0; auto. destruct Hr0 as (K & S).
     split; [exact S|]. split; [apply kin_law_bump in K; exact K|].
     unfold bump_i. cbn [ts_k k_time k_speed]. auto.
@@ -381,4 +382,140 @@ Proof.
     + unfold sl_bump. cbn [sl_st]. apply kin_law_bump. exact K.
     + unfold sl_bump, bump_i. cbn [sl_st ts_k k_speed k_speed_target]. exact S.
   - exists m, m'. auto.
+Qed.
+
+(* ------------------------------------------------------------------ C14: the set-speed row law *)
+(* what the row saved by step i of a set-speed run contains, given the limits [cl] the consist
+   published for it; [st1] is the state after update_res (it carries the resistance of this step) *)
+Definition ss_row_law (times speeds : list R) (cl : ConLimr) (st st' : TState (F:=R)) (res_net_step : R) : Prop :=
+  let i := k_i (ts_k st) in
+  let dt := nthR times i - nthR times (i - 1) in
+  let v_i := nthR speeds i in let v_p := nthR speeds (i - 1) in
+  let mean := (v_i + v_p) / 2 in
+  (* the traction ceiling: note the ramp term uses the dt stored in the state = the PREVIOUS step's *)
+  let ppos := Rmin (cl_pwr_out_max cl) (Rmax 0 (w_pwr_whl_out (ts_w st) + cl_pwr_rate_out_max cl * k_dt (ts_k st))) in
+  let pneg := Rmax (cl_pwr_dyn_brake_max cl) 0 in
+  let w' := ts_w st' in
+  0 <= v_i /\ 0 <= v_p /\ 0 <= ppos /\
+  k_time (ts_k st') = nthR times i /\ k_speed (ts_k st') = v_i /\ k_dt (ts_k st') = dt /\
+  w_pwr_res w' = res_net_step * mean /\
+  w_pwr_accel w' = mass_compound (ts_p st) / (2 * dt) * (v_i * v_i - v_p * v_p) /\
+  w_pwr_whl_out w' = Rmin (Rmax (w_pwr_accel w' + w_pwr_res w') (- pneg)) ppos /\
+  w_energy_whl_out w' = w_energy_whl_out (ts_w st) + w_pwr_whl_out w' * dt /\
+  w_energy_whl_out_pos w' = w_energy_whl_out_pos (ts_w st) +
+      (if Rle_dec 0 (w_pwr_whl_out w') then w_pwr_whl_out w' * dt else 0) /\
+  w_energy_whl_out_neg w' = w_energy_whl_out_neg (ts_w st) -
+      (if Rle_dec 0 (w_pwr_whl_out w') then 0 else w_pwr_whl_out w' * dt).
+
+Theorem ss_step_row (e : Envr) times speeds cl st c st' c' :
+  ss_solve_step e times speeds cl st c = Ok (st', c') ->
+  exists st1 c1, strap_update_res (e_grades e) (e_curves e) (e_rp e) st c DFwd = Ok (st1, c1) /\
+    ts_r st' = ts_r st1 /\ ss_row_law times speeds cl st st' (res_net (ts_r st1)).
+Proof.
+  intros H. apply ss_solve_step_facts in H.
+  destruct H as (st1 & c1 & Hu & _ & Hi1 & Hit & Hiv & Hv0 & Hvp0 & Hpp & Ft & Fs & Fdt & Fi & Fo & Fd & Fb & Fp & Fr & Fl
+                 & Fpr & Fpa & Fw & Fe & Fep & Fen & _).
+  exists st1, c1. split; [exact Hu|]. split; [exact Fr|].
+  unfold ss_row_law. cbv zeta. unfold pwr_pos_max_of, pwr_neg_max_of, clip in *. numR.
+  repeat split; auto.
+Qed.
+
+(* the clip, spelled out: inside the band the demand passes unchanged *)
+Lemma clip_spec (x neg pos : R) : - neg <= pos ->
+  (x < - neg -> clip x neg pos = - neg) /\
+  (- neg <= x <= pos -> clip x neg pos = x) /\
+  (pos < x -> clip x neg pos = pos) /\
+  - neg <= clip x neg pos <= pos.
+Proof.
+  intros H. unfold clip. numR. split; [|split; [|split]].
+  - intros L. rewrite Rmax_right by lra. rewrite Rmin_left by lra. reflexivity.
+  - intros [L1 L2]. rewrite Rmax_left by lra. rewrite Rmin_left by lra. reflexivity.
+  - intros L. rewrite Rmax_left by lra. rewrite Rmin_right by lra. reflexivity.
+  - destruct (Rle_dec x (- neg)) as [L|L].
+    + rewrite Rmax_right by lra. rewrite Rmin_left by lra. lra.
+    + rewrite Rmax_left by lra. destruct (Rle_dec x pos) as [L2|L2].
+      * rewrite Rmin_left by lra. lra.
+      * rewrite Rmin_right by lra. lra.
+Qed.
+
+(* the inertia term is the rate of change of the kinetic energy of the compound mass *)
+Lemma accel_is_kinetic_rate (mc dt v_i v_p : R) : dt <> 0 ->
+  mc / (2 * dt) * (v_i * v_i - v_p * v_p) = (mc * (v_i * v_i) / 2 - mc * (v_p * v_p) / 2) / dt.
+Proof. intros H. field. exact H. Qed.
+
+(* negative samples are rejected: sample i, and (the fix) sample i-1, so also the first sample *)
+Theorem ss_negative_rejected (e : Envr) times speeds cl st c :
+  let i := k_i (ts_k st) in
+  (i < length speeds)%nat -> (1 <= i)%nat -> (nthR speeds i < 0 \/ nthR speeds (i - 1) < 0) ->
+  ss_solve_step e times speeds cl st c = Err 1202.
+Proof.
+  cbv zeta. intros Hl Hi Hneg. unfold ss_solve_step.
+  destruct (nth_error speeds (k_i (ts_k st))) as [v_i|] eqn:Evi.
+  2:{ apply nth_error_None in Evi. lia. }
+  pose proof (nth_error_nthR _ _ _ Evi) as Nv. numR.
+  destruct (Rleb_spec 0 v_i) as [L|L]; [|reflexivity]. cbn [ensure bind].
+  destruct (k_i (ts_k st)) as [|im1] eqn:Ei; [lia|].
+  destruct (nth_error speeds im1) as [v_p|] eqn:Evp.
+  2:{ apply nth_error_None in Evp. lia. }
+  pose proof (nth_error_nthR _ _ _ Evp) as Np. cbn [Nat.sub] in Hneg. rewrite Nat.sub_0_r in Hneg.
+  destruct (Rleb_spec 0 v_p) as [L2|L2]; [|reflexivity]. lra.
+Qed.
+
+(* follows_trace over whole runs: the row saved by the n-th step of an accepted run is the trace's
+   sample number (i0 + n - 1 + 1); counters advance by one *)
+Lemma ss_run_counter (e : Envr) times speeds : forall ins sc sc',
+  run (ss_run_step e times speeds) sc ins = Ok sc' ->
+  k_i (ts_k (fst sc')) = (k_i (ts_k (fst sc)) + length ins)%nat.
+Proof.
+  induction ins as [|cl t IH]; intros sc sc' H; cbn in H.
+  - inversion H; subst. cbn. lia.
+  - destruct (ss_run_step e times speeds sc cl) as [sc1| |] eqn:E; try discriminate.
+    apply IH in H. rewrite H. unfold ss_run_step, ss_step in E.
+    binv E r Hr0. destruct r as [st' c']. cbv beta iota in E. inversion E; subst sc1.
+    apply ss_solve_step_facts in Hr0.
+    destruct Hr0 as (_ & _ & _ & _ & _ & _ & _ & _ & _ & _ & _ & _ & _ & Fi & _).
+    cbn [fst bump_i ts_k k_i length]. rewrite Fi. lia.
+Qed.
+
+Theorem ss_every_step_row (e : Envr) times speeds pre cl post sc sc' :
+  run (ss_run_step e times speeds) sc (pre ++ cl :: post) = Ok sc' ->
+  exists m m' rn, run (ss_run_step e times speeds) sc pre = Ok m /\
+    ss_run_step e times speeds m cl = Ok m' /\
+    k_i (ts_k (fst m)) = (k_i (ts_k (fst sc)) + length pre)%nat /\
+    ss_row_law times speeds cl (fst m) (fst m') rn /\
+    k_time (ts_k (fst m')) = nthR times (k_i (ts_k (fst sc)) + length pre) /\
+    k_speed (ts_k (fst m')) = nthR speeds (k_i (ts_k (fst sc)) + length pre).
+Proof.
+  intros Hr. apply run_prefix in Hr. destruct Hr as (m & R1 & R2).
+  cbn [run] in R2. destruct (ss_run_step e times speeds m cl) as [m'| |] eqn:E; try discriminate.
+  pose proof (ss_run_counter _ _ _ _ _ _ R1) as Hc.
+  pose proof E as E'. unfold ss_run_step, ss_step in E'.
+  binv E' r Hr0. destruct r as [st' c']. cbv beta iota in E'. inversion E'; subst m'.
+  apply ss_step_row in Hr0. destruct Hr0 as (st1 & c1 & _ & _ & L).
+  exists m, (bump_i st', c'), (res_net (ts_r st1)).
+  split; [exact R1|]. split; [exact E|]. split; [exact Hc|].
+  assert (L' : ss_row_law times speeds cl (fst m) (bump_i st') (res_net (ts_r st1))).
+  { unfold ss_row_law, bump_i in *. cbn [ts_k ts_w ts_p k_time k_speed k_dt]. exact L. }
+  split; [exact L'|]. cbn [fst]. rewrite <- Hc.
+  destruct L' as (_ & _ & _ & Ft & Fs & _). auto.
+Qed.
+
+(* the ramp term of step n+1 is computed with the dt of step n (as coded) *)
+Theorem ss_ramp_uses_previous_dt (e : Envr) times speeds cl1 cl2 st c st1 c1 st2 c2 :
+  ss_solve_step e times speeds cl1 st c = Ok (st1, c1) ->
+  ss_solve_step e times speeds cl2 (bump_i st1) c1 = Ok (st2, c2) ->
+  let i := k_i (ts_k st) in
+  exists rn, ss_row_law times speeds cl2 (bump_i st1) st2 rn /\
+    k_dt (ts_k (bump_i st1)) = nthR times i - nthR times (i - 1) /\
+    k_dt (ts_k st2) = nthR times (S i) - nthR times i.
+Proof.
+  intros H1 H2. cbv zeta.
+  pose proof (ss_solve_step_facts _ _ _ _ _ _ _ _ H1) as F1.
+  destruct F1 as (_ & _ & _ & _ & _ & _ & _ & _ & _ & _ & _ & _ & Fdt1 & Fi1 & _).
+  apply ss_step_row in H2. destruct H2 as (sx & cx & _ & _ & L).
+  exists (res_net (ts_r sx)). split; [exact L|].
+  split; [unfold bump_i; cbn [ts_k k_dt]; exact Fdt1|].
+  destruct L as (_ & _ & _ & _ & _ & Fdt2 & _). rewrite Fdt2.
+  unfold bump_i. cbn [ts_k k_i]. rewrite Fi1. replace (S (k_i (ts_k st)) - 1)%nat with (k_i (ts_k st)) by lia.
+  reflexivity.
 Qed.
